@@ -424,6 +424,7 @@ fn main() {
     mc::util::install_quiet_panic_hook();
     let tier = args.get(2).cloned().or_else(|| std::env::var("VERIF_TIER").ok()).filter(|t| t == "thorough").unwrap_or_else(|| "quick".to_owned());
     let thorough = tier == "thorough";
+    let code = mc::util::guard_main("C19", || {
     let mut ev = Evidence::new("C19", &tier, "model_checking");
     let mut rep = Report::new("C19");
     // the quorum rule itself, exhaustively
@@ -506,5 +507,7 @@ fn main() {
     ev.assume("paused tokio clock, real loopback UDP sockets, the harness never parks (fixed number of yields per step, event_interval 1); the randomized election timeout (t..2t) is crossed by advancing in t/8 steps until the vote requests are observed");
     ev.assume("senders are chosen canonically (lowest-numbered configured peer): the election code inspects a peer's identity only for membership and equality");
     ev.assume("lead() / the server process itself are not started: ElectionOutcome::Leader is what run_main turns into lead() without further conditions");
-    std::process::exit(rep.finish(&mut ev));
+    rep.finish(&mut ev)
+    });
+    std::process::exit(code);
 }
